@@ -304,4 +304,209 @@ theorem inStepText_inv (env : Env) (t : Text) (s : Col α) (hi : Inv env s) : In
       simp only [A_modify]
       refine Inv.congr (s := s) ?_ hi; exact ⟨rfl, rfl, rfl, rfl, rfl, rfl, rfl, rfl, rfl, Or.inr ⟨_, rfl⟩⟩
 
+/-! ### components -/
+
+theorem pushItem_step (it : Item) (items : List Item) (s : Col α) (hb : s.block = some (.step items)) :
+    pushItem it s = (⟨⟩, { s with block := some (.step (items ++ [it])) }) := by
+  unfold pushItem
+  simp +instances only [A_bind, A_get, hb, A_set]
+
+theorem pushItem_step' (it : Item) (items : List Item) (s s' : Col α) (hs : s'.block = s.block)
+    (hb : s.block = some (.step items)) :
+    pushItem it s' = (⟨⟩, { s' with block := some (.step (items ++ [it])) }) :=
+  pushItem_step it items s' (hs.trans hb)
+
+theorem inStepComponent_inv (env : Env) (input : Str) (ev : Ev α) (items : List Item) (s : Col α) (hi : Inv env s)
+    (hb : s.block = some (.step items)) (hev : EvOK ev) : Inv env (inStepComponent env input ev s).2 := by
+  unfold inStepComponent
+  have hpanic : Inv env (apanic "Unexpected event in step" s).2 := hi.congr ((DiagOnly.apanic _).coreOnly.out s)
+  cases ev with
+  | ingredient li =>
+    simp only [A_bind]
+    obtain ⟨dg, p, ings, igr, h1, h2, h3⟩ := ingredientA_spec env input li s hi.locI hi.itab.nonREF_def hev
+    have hblk : (ingredientA env input li s).2.block = s.block := by rw [h1]
+    rw [pushItem_step' _ items s (ingredientA env input li s).2 hblk hb, h1]
+    simp only []
+    refine hi.grow rfl rfl rfl ?_ (Nat.le_refl _) (Nat.le_refl _) (Nat.le_refl _) ?_ hi.locC
+      (hi.itab.step ings igr h3) hi.ctab hi.timers ?_
+    · simp only [Array.size_push, h2]; omega
+    · simp only [Array.size_push, h2, hi.locI]
+    · intro items' hb' it hit
+      simp only [Option.some.injEq, BlockBuf.step.injEq] at hb'
+      subst hb'
+      simp only [List.mem_append, List.mem_singleton] at hit
+      rcases hit with h | h
+      · exact (hi.blk items hb it h).mono (by simp only [Array.size_push, h2]; omega) (Nat.le_refl _)
+          (Nat.le_refl _) (Nat.le_refl _)
+      · rw [h]; simp only [ItemOK, Array.size_push, h2]; omega
+  | cookware lc =>
+    simp only [A_bind]
+    obtain ⟨dg, p, cws, cw, h1, h2, h3⟩ := cookwareA_spec env input lc s hi.locC hi.ctab.nonREF_def
+    have hblk : (cookwareA env input lc s).2.block = s.block := by rw [h1]
+    rw [pushItem_step' _ items s (cookwareA env input lc s).2 hblk hb, h1]
+    simp only []
+    refine hi.grow rfl rfl rfl (Nat.le_refl _) ?_ (Nat.le_refl _) (Nat.le_refl _) hi.locI ?_
+      hi.itab (hi.ctab.step cws cw h3) hi.timers ?_
+    · simp only [Array.size_push, h2]; omega
+    · simp only [Array.size_push, h2, hi.locC]
+    · intro items' hb' it hit
+      simp only [Option.some.injEq, BlockBuf.step.injEq] at hb'
+      subst hb'
+      simp only [List.mem_append, List.mem_singleton] at hit
+      rcases hit with h | h
+      · exact (hi.blk items hb it h).mono (Nat.le_refl _) (by simp only [Array.size_push, h2]; omega)
+          (Nat.le_refl _) (Nat.le_refl _)
+      · rw [h]; simp only [ItemOK, Array.size_push, h2]; omega
+  | timer lt =>
+    simp only [A_bind]
+    obtain ⟨dg, p, tm, h1, h2, h3⟩ := timerA_spec env lt s
+    have hblk : (timerA env lt s).2.block = s.block := by rw [h1]
+    rw [pushItem_step' _ items s (timerA env lt s).2 hblk hb, h1]
+    simp only []
+    refine hi.grow rfl rfl rfl (Nat.le_refl _) (Nat.le_refl _) ?_ (Nat.le_refl _) hi.locI hi.locC
+      hi.itab hi.ctab ?_ ?_
+    · simp only [Array.size_push]; omega
+    · intro t ht
+      simp only [Array.toList_push, List.mem_append, List.mem_singleton] at ht
+      rcases ht with ht | ht
+      · exact hi.timers t ht
+      · rw [ht, h2, h3]; exact hev
+    · intro items' hb' it hit
+      simp only [Option.some.injEq, BlockBuf.step.injEq] at hb'
+      subst hb'
+      simp only [List.mem_append, List.mem_singleton] at hit
+      rcases hit with h | h
+      · exact (hi.blk items hb it h).mono (Nat.le_refl _) (Nat.le_refl _)
+          (by simp only [Array.size_push]; omega) (Nat.le_refl _)
+      · rw [h]; simp only [ItemOK, Array.size_push]; omega
+  | frontMatter _ => exact hpanic
+  | metadata _ _ => exact hpanic
+  | «section» _ => exact hpanic
+  | start _ => exact hpanic
+  | stop _ => exact hpanic
+  | text _ => exact hpanic
+  | error _ => exact hpanic
+  | warning _ => exact hpanic
+
+theorem inTextComponent_coreOnly (input : Str) (ev : Ev α) (buf : Str) : CoreOnly (inTextComponent input ev buf) := by
+  unfold inTextComponent
+  core_only
+
+theorem inBlockComponent_inv (env : Env) (input : Str) (ev : Ev α) (s : Col α) (hi : Inv env s) (hev : EvOK ev) :
+    Inv env (inBlockComponent env input ev s).2 := by
+  unfold inBlockComponent
+  simp +instances only [A_bind, A_get]
+  cases hb : s.block with
+  | none =>
+    simp only []
+    exact hi.congr ((DiagOnly.apanic _).coreOnly.out s)
+  | some buf =>
+    cases buf with
+    | step items => simp only []; exact inStepComponent_inv env input ev items s hi hb hev
+    | text b => simp only []; exact hi.congr ((inTextComponent_coreOnly input ev b).out s)
+
+/-! ### end of a block -/
+
+theorem endBlockContent_diagOnly (kind : BlockKind) : DiagOnly (endBlockContent (α := α) kind) := by
+  unfold endBlockContent
+  diag_only
+
+theorem A_if_then_fst {β : Type} (c : Prop) [Decidable c] (m : A α Unit) (x : β) (s : Col α) :
+    ((if c then (m >>= fun _ => pure x) else pure x : A α β) s).1 = x := by
+  split <;> rfl
+
+theorem endBlockContent_val (kind : BlockKind) (s : Col α) :
+    (endBlockContent kind s).1 = match s.block with
+      | some (.step items) => some (Content.step ⟨items, s.stepCounter⟩)
+      | some (.text t) => some (Content.text t)
+      | none => none := by
+  unfold endBlockContent
+  simp +instances only [A_bind, A_get]
+  cases hb : s.block with
+  | none => rfl
+  | some buf =>
+    cases buf with
+    | step items => exact A_if_then_fst _ _ _ _
+    | text b => exact A_if_then_fst _ _ _ _
+
+/-- pushing a non-empty content whose items are in range, numbered with the step counter -/
+theorem Inv.pushContent {env : Env} {s : Col α} (hi : Inv env s) (c : Content) (dg : Array Diag) (p : Option String)
+    (hc : ContentOK s.ingredients.size s.cookware.size s.timers.size s.inlineQ.size c)
+    (hn : ∀ st, c = .step st → st.number = s.stepCounter) :
+    Inv env { s with diags := dg, panic := p, block := none,
+                     stepCounter := if c.isStep = true then s.stepCounter + 1 else s.stepCounter,
+                     cur := { s.cur with content := s.cur.content ++ [c] } } where
+  locI := hi.locI
+  locC := hi.locC
+  itab := hi.itab
+  ctab := hi.ctab
+  timers := hi.timers
+  secs := hi.secs
+  blk := fun items h => by cases h
+  cur := by
+    refine ⟨?_, ?_⟩
+    · cases c with
+      | text t => exact hi.cur.1.push_text t
+      | step st =>
+        have := hi.cur.1.push_step st.items
+        rw [← hi.counter, ← hn st rfl] at this
+        exact this
+    · intro ct hct
+      simp only [List.mem_append, List.mem_singleton] at hct
+      rcases hct with h | h
+      · exact hi.cur.2 ct h
+      · rw [h]; exact hc
+  counter := by
+    cases c with
+    | text t =>
+      simp only [Content.isStep, Bool.false_eq_true, if_false, List.filter_append, List.filter_cons, List.filter_nil,
+        List.append_nil]
+      exact hi.counter
+    | step st =>
+      simp only [Content.isStep, if_true, List.filter_append, List.filter_cons, List.filter_nil,
+        List.length_append, List.length_cons, List.length_nil]
+      have := hi.counter
+      omega
+
+theorem endBlock_inv (env : Env) (kind : BlockKind) (s : Col α) (hi : Inv env s) : Inv env (endBlock kind s).2 := by
+  unfold endBlock
+  simp +instances only [A_bind, A_modify]
+  obtain ⟨d, p, h⟩ := (endBlockContent_diagOnly kind).out s
+  have hv := endBlockContent_val kind s
+  have hplain : ∀ (d' : Array Diag) (p' : Option String), Inv env { s with diags := d', panic := p', block := none } :=
+    fun d' p' => hi.grow rfl rfl rfl (Nat.le_refl _) (Nat.le_refl _) (Nat.le_refl _) (Nat.le_refl _)
+      hi.locI hi.locC hi.itab hi.ctab hi.timers (fun items hb => by cases hb)
+  rw [hv]
+  cases hb : s.block with
+  | none =>
+    simp only [A_pure, h]
+    exact hplain d p
+  | some buf =>
+    cases buf with
+    | step items =>
+      simp only []
+      unfold pushContent
+      simp +instances only [A_bind, A_get, A_ite, A_modify, A_pure, h]
+      split
+      · rename_i hcond
+        simp only [Bool.and_eq_true, Bool.not_eq_true', Content.isEmptyContent, List.isEmpty_eq_false_iff] at hcond
+        refine hi.pushContent (.step ⟨items, s.stepCounter⟩) d p ⟨(by intro hc; cases hc), ?_⟩ ?_
+        · intro st hst
+          cases hst
+          exact ⟨hcond.2, hi.blk items hb⟩
+        · intro st hst; cases hst; rfl
+      · exact hplain d p
+    | text t =>
+      simp only []
+      unfold pushContent
+      simp +instances only [A_bind, A_get, A_ite, A_modify, A_pure, h]
+      split
+      · rename_i hcond
+        simp only [Bool.and_eq_true, Bool.not_eq_true', Content.isEmptyContent, List.isEmpty_eq_false_iff] at hcond
+        refine hi.pushContent (.text t) d p ⟨?_, ?_⟩ ?_
+        · intro hc; cases hc; exact hcond.2 rfl
+        · intro st hst; cases hst
+        · intro st hst; cases hst
+      · exact hplain d p
+
 end Cook
